@@ -1,8 +1,8 @@
 //! Defines parser functions related to character input.
 
 use winnow::{
-    ascii::line_ending,
-    combinator::{alt, delimited, eof, trace},
+    ascii::{line_ending, space1},
+    combinator::{alt, delimited, eof, repeat, trace},
     error::ParserError,
     stream::{AsChar, Compare, Stream, StreamIsPartial},
     token::{one_of, take_till, take_while},
@@ -54,6 +54,27 @@ where
     E: ParserError<I>,
 {
     trace("character::newlines", take_while(0.., b"\r\n")).parse_next(input)
+}
+
+/// Consume all vertical spaces: empty lines, possibly with horizontal spaces.
+pub fn vertical_spaces<I, E>(input: &mut I) -> winnow::Result<(), E>
+where
+    I: Stream + StreamIsPartial + winnow::stream::Compare<&'static str>,
+    <I as Stream>::Token: AsChar + Clone,
+    E: ParserError<I>,
+{
+    trace(
+        "character::vertical_spaces",
+        repeat(
+            0..,
+            alt((
+                line_ending.void(),
+                // line only with spaces, the last line may be terminated by EOF.
+                (space1, alt((line_ending.void(), eof.void()))).void(),
+            )),
+        ),
+    )
+    .parse_next(input)
 }
 
 /// Parses unnested string in paren.
